@@ -133,10 +133,23 @@ ScBlocks(b, i, lim, acc) ==
          ELSE ScBlocks(b, i+n, lim, [acc EXCEPT !.types = Append(@, t), !.version = B4(b, i+4), !.coreLen = n])
   ELSE IF t = 3075 THEN
          IF n < 8 THEN Bad("sc_net: bad size")
-         ELSE ScBlocks(b, i+n, lim, [acc EXCEPT !.types = Append(@, t), !.ioChannel = U16LE(b, i+4), !.nchannels = U16LE(b, i+6)])
+         ELSE IF n < 8 + 2 * U16LE(b, i+6) THEN Bad("sc_net: channelCount exceeds the block")
+         ELSE ScBlocks(b, i+n, lim, [acc EXCEPT !.types = Append(@, t), !.ioChannel = U16LE(b, i+4), !.nchannels = U16LE(b, i+6),
+                                               !.channels = [k \in 1..U16LE(b, i+6) |-> U16LE(b, i + 8 + 2 * (k - 1))]])
   ELSE ScBlocks(b, i+n, lim, [acc EXCEPT !.types = Append(@, t)])
 
 GccRspPrefix == <<0, 5, 0, 20, 124, 0, 1>>
+
+\* the GCC conference create response alone (the userData of the MCS connect response)
+DecGccResponse(b) ==
+  LET lim == Len(b) IN
+  IF lim < 7 + 1 + 13 + 1 \/ Sub(b, 1, 7) # GccRspPrefix THEN Bad("gcc: bad conference create response")
+  ELSE LET l1 == W!PerLen(b, 8) IN IF ~l1.ok THEN l1
+  ELSE LET j == 8 + l1.hl
+           l2 == W!PerLen(b, j + 13) IN IF ~l2.ok THEN l2
+  ELSE LET k == j + 13 + l2.hl IN
+  IF k + l2.n - 1 # lim THEN Bad("gcc: server userData length # size")
+  ELSE ScBlocks(b, k, lim, [ok |-> TRUE, types |-> <<>>, version |-> <<>>, coreLen |-> 0, ioChannel |-> 0, nchannels |-> 0, channels |-> <<>>])
 
 ConnectResponse(b, i, lim) ==
   IF i + 2 > lim \/ b[i] # 127 \/ b[i+1] # 102 THEN Bad("mcs: connect-response tag expected")
@@ -155,7 +168,7 @@ ConnectResponse(b, i, lim) ==
            l2 == W!PerLen(b, j + 13) IN IF ~l2.ok THEN l2
   ELSE LET k == j + 13 + l2.hl IN
   IF k + l2.n - 1 # lim THEN Bad("gcc: server userData length # size")
-  ELSE LET bl == ScBlocks(b, k, lim, [ok |-> TRUE, types |-> <<>>, version |-> <<>>, coreLen |-> 0, ioChannel |-> 0, nchannels |-> 0]) IN
+  ELSE LET bl == ScBlocks(b, k, lim, [ok |-> TRUE, types |-> <<>>, version |-> <<>>, coreLen |-> 0, ioChannel |-> 0, nchannels |-> 0, channels |-> <<>>]) IN
   IF ~bl.ok THEN bl
   ELSE [ok |-> TRUE, kind |-> "ConnectResponse", result |-> b[s + 2], blocks |-> bl.types,
         version |-> bl.version, coreLen |-> bl.coreLen, ioChannel |-> bl.ioChannel, nchannels |-> bl.nchannels]
